@@ -144,7 +144,8 @@ PROPS["C15"] = dict(
 )
 
 PROPS["C04"] = dict(
-    functions=SEL_FUNCS,
+    functions=SEL_FUNCS + ["priority::select_best_quality_eligible_idx", "sender::packet_handler::{forward_via_connection, send_stall_probes} (async fns, "
+               "each polled once as its own future)", "SrtlaConnection::{queue_data_packet, stall_probe_due}", "SequenceTracker::{insert, get}"],
     bounds=SEL_BOUNDS + "; N = 2 (quick), 3 (thorough; classic also 4)",
     stubs=["selection::enhanced::in_flight_cap_exceeded and cc_soft_cap_multiplier -> their exact tables on the leaf domain (see C03 / "
            "c11_leaf_tables_exact)"],
@@ -152,13 +153,20 @@ PROPS["C04"] = dict(
     outside="Decided: (i) whatever select_connection_idx returns - normal scheduling or score hysteresis - and (ii) whatever the priority override's "
             "selector select_best_quality_eligible_idx returns when called right after it (same order as the call site) has completed registration "
             "since its last reset, is not timed out and is not stall-gated. NOT decided: the condition at the call site in the shell's handle_srt_packet "
-            "(data packet && enhanced mode && (critical window || retransmit flag) && target != scheduler's choice), pre-registration forwarding and "
-            "the duplicate probes - the composition harness over the real handle_srt_packet (hk/shell/src/c04.rs, asserting all of it) still exhausts "
+            "(data packet && enhanced mode && (critical window || retransmit flag) && target != scheduler's choice) and pre-registration forwarding. "
+            "Also decided, on the real shell pieces: forward_via_connection queues the unique copy on exactly the chosen uplink, and send_stall_probes "
+            "gives an extra copy only to stall-gated connected uplinks at the 1-in-100 cadence ('at most ... the sparse duplicate probes'). Their "
+            "COMPOSITION is not decided - the harness over the real handle_srt_packet (hk/shell/src/c04.rs, asserting all of it) still exhausts "
             "CBMC's memory because that function awaits nested async fns (DESIGN.md 2.5). Defect F5 was found at exactly that call site and repaired. "
             "Fault histories are covered inductively through the arbitrary pre-state.",
     harnesses=[
         H("c03::c03_classic_n2", "core", desc="classic: selected uplink AND the priority-override target are registered, not timed out, not stall-gated; the target has the best cached quality among eligible links", bounds="N=2"),
         H("c03::c03_enhanced_n2", "core", desc="enhanced (incl. hysteresis hold): same", bounds="N=2"),
+        # the two shell pieces that put a datagram onto uplinks, each polled once as its own future (DESIGN.md 2.5)
+        H("c04p::c04_forward_unique_copy_sel0", "shell", desc="real forward_via_connection: exactly the chosen uplink queues the unique copy once; the tracker remembers it as the carrier; choice recorded; nothing else touched", bounds="2 links, chosen uplink 0, datagram 1..12 B", timeout=1200),
+        H("c04p::c04_forward_unique_copy_sel1", "shell", desc="same, chosen uplink 1", bounds="2 links, datagram 1..12 B", timeout=1200),
+        H("c04p::c04_probes_only_on_gated_sel0", "shell", desc="real send_stall_probes: an extra copy goes only to a stall-gated AND connected uplink, only on its 100th opportunity, never to the carrier, never into the tracker; a due probe is sent", bounds="2 links, carrier 0, data packet 4..12 B", timeout=1200),
+        H("c04p::c04_probes_only_on_gated_sel1", "shell", desc="same, carrier 1", bounds="2 links, data packet 4..12 B", timeout=1200),
         H("c03::c03_classic_n3", "core", tier="thorough", bounds="N=3", timeout=3000),
         H("c03::c03_enhanced_n3", "core", tier="thorough", bounds="N=3", timeout=3000),
     ],
